@@ -642,6 +642,16 @@ func (e *Engine) trCall(env *SpecEnv, n SCall) Val {
 		}
 		_, ub := e.boxFns(t)
 		return Val{T: "(" + ub + " " + x.T + ")", S: e.sortOf(t), GoT: t}
+	case "pathClean", "pathDir":
+		e.sc.declareFun(id.Name, []string{"String"}, "String")
+		return Val{T: "(" + id.Name + " " + arg(0).T + ")", S: "String", GoT: tString}
+	case "pathJoin":
+		e.sc.declareFun("pathJoin", []string{"String", "String"}, "String")
+		cur := arg(0).T
+		for k := 1; k < len(n.Args); k++ {
+			cur = "(pathJoin " + cur + " " + arg(k).T + ")"
+		}
+		return Val{T: cur, S: "String", GoT: tString}
 	case "sprintf1":
 		// sprintf1("format", x): fmt.Sprintf(format, x)
 		x := arg(1)
